@@ -423,7 +423,21 @@ def rarr_every_element(ctx):
     array_elements_all_processed(ctx.F, ctx.R, "C18.ARR")
 
 
-RULES = [r1_effect_summaries, r2_ledger, r3_notification_arms, r4_lost_drop_is_recovered, r5_no_unaccounted_success_path, rarr_every_element]
+
+def _borrowed(modname, fname):
+    def run(ctx):
+        import importlib
+        mod = importlib.import_module("jrsa.rules." + modname)
+        return getattr(mod, fname)(ctx)
+    run.__name__ = "%s_%s" % (modname, fname)
+    return run
+
+
+# 'identifiers of finished work can never capture a later message' / 'retains no state': completion removes exactly the keyed entry (C03.R4), a refused insert changes nothing (C05.R6)
+BORROWED = [_borrowed("c03", "r4_completion_consumes"), _borrowed("c05", "r6_refused_insert_is_pure")]
+
+
+RULES = [r1_effect_summaries, r2_ledger, r3_notification_arms, r4_lost_drop_is_recovered, r5_no_unaccounted_success_path, rarr_every_element] + BORROWED
 
 LEVEL_TEXT = (
     "A ledger over the client's four private tables decided from the type-checked program: per-method effect summaries "
